@@ -455,7 +455,7 @@ def run_mc_sharded(res, module, base_consts, shard_key, shards, vec_out, workers
 
 
 ALL_DAY_IDS = list(range(1, 1152))
-STRUCT_DAY_IDS = [1, 2, 31, 32, 59, 60, 61, 90, 365, 366, 367, 424, 425, 426, 731,          # J1 J59 J60.. ; 0 1 58 59 60 365
+STRUCT_DAY_IDS = [1, 2, 31, 32, 59, 60, 61, 90, 364, 365, 366, 367, 424, 425, 426, 730, 731,          # ... J364 J365 ; 0 1 58 59 60 364 365          # J1 J59 J60.. ; 0 1 58 59 60 365
                   732, 766, 767, 795, 801, 802, 830, 836, 1011, 1046, 1116, 1117, 1145, 1151]  # M1.1.0 M1.5.6 M2.1.0 M2.5.0 M3.* M9/M10 M11.5.6 M12.*
 
 
@@ -646,7 +646,7 @@ def check_C09(tier, seed):
     res.add_mc(run_mc("MC_TzString", dict(EmitVec="TRUE", MaxTok=3 if q else 4, PartA="TRUE", PartB="TRUE"), workers=C.NCPU, vec_out=raw, timeout=6000, xmx="8g"))
     run_pipeline(res, binary, "vec", vec_path=raw, validate=False)
     os.remove(raw)
-    run_pipeline(res, binary, "strings", gen_lines=itertools.chain(gens.gen_ext_edge(), gens.gen_tzstrings(rng, 6000 if q else 100000)), nshards=12 if q else 16)
+    run_pipeline(res, binary, "strings", gen_lines=itertools.chain(gens.gen_ext_edge(), gens.gen_day_notation_confusions(), gens.gen_tzstrings(rng, 6000 if q else 100000)), nshards=12 if q else 16)
     def near_rules():
         # a sentence also has to be a rule the library can hold: start and end days that coincide or nearly do in some years, times
         # and offsets a few minutes either side of zero, written out (the decision must be the constructor's, C11)
